@@ -1991,6 +1991,17 @@ class TLSConnection(TLSRecordLayer):
                         str(certificateRequest.supported_signature_algs)):
                     yield result
 
+            if clientCertChain and self.version < (3, 3) and \
+                    isinstance(clientCertChain, X509CertChain) and \
+                    clientCertChain.x509List and \
+                    clientCertChain.x509List[0].certAlg in ("Ed25519",
+                                                            "Ed448"):
+                for result in self._sendError(
+                        AlertDescription.handshake_failure,
+                        "EdDSA client certificate can't be used before "
+                        "TLS 1.2"):
+                    yield result
+
             if clientCertChain:
                 #Check to make sure we have the same type of
                 #certificates the server requested
@@ -4513,6 +4524,11 @@ class TLSConnection(TLSRecordLayer):
             try:
                 # Find a suitable ciphersuite based on the certificate
                 ciphers = CipherSuite.filter_for_certificate(cipher_suites, cert)
+                # EdDSA signatures exist only in TLS 1.2 and later
+                if version < (3, 3) and cert and cert.x509List and \
+                        cert.x509List[0].certAlg in ("Ed25519", "Ed448"):
+                    raise TLSHandshakeFailure(
+                        "EdDSA certificate can't be used before TLS 1.2")
                 # but if we have matching PSKs, prefer those
                 if settings.pskConfigs and client_psks:
                     client_identities = [
